@@ -498,6 +498,9 @@ def tt_ind2sub(
     if idx.size == 0:
         return np.empty(shape=(0, len(shape)), dtype=int)
     # Handle negative indexing as simply as possible (without touching the caller's array)
+    if np.issubdtype(idx.dtype, np.integer):
+        # narrow index types cannot hold the size of a large tensor
+        idx = idx.astype(np.int64, copy=False)
     idx = np.where(idx < 0, idx + prod(shape), idx)
     return np.array(np.unravel_index(idx, shape, order=order)).transpose()
 
